@@ -25,8 +25,12 @@ class BoxUniform(distributions.Independent):
                                              reinterpret as event dims.
         """
 
+        # Argument validation is switched off so that points outside the box get log-probability -inf
+        # (as documented above and as LotkaVolterraOscillating.sample relies on) instead of a ValueError.
         super().__init__(
-            distributions.Uniform(low=low, high=high), reinterpreted_batch_ndims
+            distributions.Uniform(low=low, high=high, validate_args=False),
+            reinterpreted_batch_ndims,
+            validate_args=False,
         )
 
 
